@@ -112,7 +112,8 @@ class _mpf(mpnumeric):
     def mpf_convert_rhs(cls, x):
         if isinstance(x, int_types): return from_int(x)
         if isinstance(x, float): return from_float(x)
-        if isinstance(x, complex_types): return cls.context.mpc(x)
+        # (exactly: the constructor would round the parts)
+        if isinstance(x, complex_types): return cls.context.convert(x)
         if isinstance(x, rational.mpq):
             p, q = x._mpq_
             return from_rational(p, q, *cls.context._prec_rounding)
